@@ -12,68 +12,308 @@ open PV PV.Mux
 
 /-! ## dispatch: a map of independent per-channel machines -/
 
-/-- a message or call for channel `a.chan` leaves every other channel untouched -/
-theorem dispatch_frame (m : Mux) (a : Act) (c : Nat) (h : c ≠ a.chan) : step m a c = m c := by
-  unfold step
-  cases m a.chan with
-  | none => rfl
-  | some ch => simp [h]
+private theorem setTab_other (m : Mux) (i c : Nat) (x : Chan) (h : c ≠ i) : (setTab m i x).tab c = m.tab c := by
+  simp [setTab, h]
+private theorem setTab_same (m : Mux) (i : Nat) (x : Chan) : (setTab m i x).tab i = some x := by simp [setTab]
+private theorem setTab_alive (m : Mux) (i : Nat) (x : Chan) : (setTab m i x).alive = m.alive := rfl
 
-private theorem step_same (m : Mux) (a : Act) (ch : Chan) (h : m a.chan = some ch) :
-    step m a a.chan = some (chanStep ch a) := by
-  unfold step; simp [h]
-
-/-- **Refinement to a map of per-channel machines**: what any history does to channel `c` is what the sub-history
-addressed to `c` does to it alone, whatever happens on the other channels in between. -/
-theorem run_proj (m : Mux) (acts : List Act) (c : Nat) (ch : Chan) (h : m c = some ch) :
-    run m acts c = some (runChan ch (acts.filter (fun a => a.chan == c))) := by
-  induction acts generalizing m ch with
-  | nil => simpa [run, runChan] using h
-  | cons a rest ih =>
-    simp only [run, List.foldl_cons] at ih ⊢
-    by_cases hc : a.chan = c
-    · have h' : m a.chan = some ch := by rw [hc]; exact h
-      have := step_same m a ch h'
-      rw [hc] at this
-      have e : (a :: rest).filter (fun a => a.chan == c) = a :: rest.filter (fun a => a.chan == c) := by
-        simp [hc]
-      rw [e]
-      simpa [runChan] using ih (step m a) (chanStep ch a) this
-    · have hne : c ≠ a.chan := fun e => hc e.symm
-      have := dispatch_frame m a c hne
-      have e : (a :: rest).filter (fun a => a.chan == c) = rest.filter (fun a => a.chan == c) := by
-        simp [hc]
-      rw [e]
-      exact ih (step m a) ch (by rw [this]; exact h)
-
-/-- a channel id that is not open receives nothing and no channel is created by traffic -/
-theorem unknown_channel_ignored (m : Mux) (a : Act) (h : m a.chan = none) : step m a = m := by
-  unfold step; simp [h]
-
-/-- the list-indexed table the driver executes is the same transition system as the abstract channel map -/
-theorem table_refines (l : Table) (a : Act) : (stepL l a).toMux = step l.toMux a := by
-  funext c
-  unfold stepL step Table.toMux
-  cases h : (l[a.chan]?).join with
-  | none => rfl
+private theorem deliver_frame (m : Mux) (a : Act) (c : Nat) (h : c ≠ a.chan) :
+    (deliver m a).tab c = m.tab c ∨ ((deliver m a).alive = false ∧ (deliver m a).tab c = (m.tab c).map kill) := by
+  unfold deliver
+  cases hm : m.tab a.chan with
+  | none => right; simp [die]
   | some ch =>
     simp only []
-    by_cases hc : c = a.chan
-    · subst hc
-      have hlt : a.chan < l.length := by
-        cases h2 : l[a.chan]? with
-        | none => simp [h2] at h
-        | some _ => exact (List.getElem?_eq_some_iff.mp h2).1
-      simp [hlt]
-    · have : a.chan ≠ c := fun e => hc e.symm
-      simp [this, hc]
+    split
+    · left; exact setTab_other m _ c _ h
+    · left; rfl
+
+private theorem appCall_frame (m : Mux) (a : Act) (c : Nat) (h : c ≠ a.chan) : (appCall m a).tab c = m.tab c := by
+  unfold appCall
+  cases hm : m.tab a.chan with
+  | none => rfl
+  | some ch => exact setTab_other m _ c _ h
+
+private theorem openChan_frame (m : Mux) (i c : Nat) (h : c ≠ i) : (openChan m i).tab c = m.tab c := by
+  unfold openChan
+  cases hm : m.tab i with
+  | none => exact setTab_other m _ c _ h
+  | some ch =>
+    simp only []
+    split
+    · rfl
+    · exact setTab_other m _ c _ h
+
+/-- a message or call for channel `a.chan` leaves every other channel untouched — unless it is a message for an id
+that was never used, which ends the run loop: then every channel is unlinked and closed (buffers untouched) -/
+theorem dispatch_frame (m : Mux) (a : Act) (c : Nat) (h : c ≠ a.chan) :
+    (step m a).tab c = m.tab c ∨ ((step m a).alive = false ∧ (step m a).tab c = (m.tab c).map kill) := by
+  have hd := deliver_frame m a c h
+  have ha := appCall_frame m a c h
+  cases a <;> simp only [step, Act.arrival, Bool.false_eq_true, if_false, if_true] <;>
+    first
+      | (split <;> first | exact hd | exact Or.inl rfl)
+      | exact Or.inl ha
+      | (split <;> first | exact Or.inl (openChan_frame m _ c h) | exact Or.inl rfl)
+
+/-- a message for a channel that is no longer registered ("dead channel") is dropped: nothing changes anywhere -/
+theorem dead_channel_drops (m : Mux) (a : Act) (ch : Chan) (ha : a.arrival = true)
+    (hc : m.tab a.chan = some ch) (hl : ch.linked = false) : step m a = m := by
+  have hd : deliver m a = m := by unfold deliver; simp [hc, hl]
+  cases a <;> simp [Act.arrival] at ha <;> simp only [step, Act.arrival, if_true] <;> split <;> first | exact hd | rfl
+
+/-- once the run loop has ended nothing is delivered any more -/
+theorem dead_transport_delivers_nothing (m : Mux) (a : Act) (ha : a.arrival = true) (hd : m.alive = false) :
+    step m a = m := by
+  cases a <;> simp [Act.arrival] at ha <;> simp [step, Act.arrival, hd]
+
+/-- a message for an id that was never used ends the run loop; every channel is closed and unlinked, and nothing is
+delivered to any of them (see `kill_keeps_data`) -/
+theorem unknown_channel_kills_transport (m : Mux) (a : Act) (ha : a.arrival = true) (hal : m.alive = true)
+    (hc : m.tab a.chan = none) :
+    (step m a).alive = false ∧ ∀ c, (step m a).tab c = (m.tab c).map kill := by
+  have hd : deliver m a = die m := by unfold deliver; simp [hc]
+  cases a <;> simp [Act.arrival] at ha <;> simp [step, Act.arrival, hal, hd, die]
+
+theorem kill_keeps_data (ch : Chan) :
+    (kill ch).out = ch.out ∧ (kill ch).err = ch.err ∧ (kill ch).outRead = ch.outRead ∧ (kill ch).errRead = ch.errRead ∧
+      (kill ch).closed = true ∧ (kill ch).linked = false := by simp [kill]
+
+/-- a channel opened under a free (or dead) id starts empty: nothing of a previous channel with that id leaks -/
+theorem reopened_channel_starts_empty (m : Mux) (c : Nat) (hal : m.alive = true)
+    (hfree : ∀ ch, m.tab c = some ch → ch.linked = false) : (step m (.open c)).tab c = some {} := by
+  simp only [step, hal, if_true]
+  unfold openChan
+  cases h : m.tab c with
+  | none => exact setTab_same m c {}
+  | some ch => simp [hfree ch h, setTab]
+
+/-- a live id is never handed out again -/
+theorem open_live_id_is_noop (m : Mux) (c : Nat) (ch : Chan) (h : m.tab c = some ch) (hl : ch.linked = true) :
+    step m (.open c) = m := by
+  simp only [step]
+  split
+  · unfold openChan; simp [h, hl]
+  · rfl
+
+private theorem chanStep_linked (ch : Chan) (a : Act) (h : ch.linked = true) (ha : staysLinked a.chan [a] = true) :
+    (chanStep ch a).linked = true := by
+  cases a <;> simp [staysLinked, Act.chan] at ha <;> simp only [chanStep] <;> (repeat' split) <;> simp_all
+
+/-- the arrivals of a history only address ids that are in use -/
+def KnownIds (m : Mux) (acts : List Act) : Prop := ∀ a ∈ acts, a.arrival = true → (m.tab a.chan).isSome = true
+
+private theorem setTab_some (m : Mux) (i j : Nat) (x : Chan) (h : (m.tab j).isSome = true) :
+    ((setTab m i x).tab j).isSome = true := by
+  unfold setTab
+  simp only []
+  split <;> simp [h]
+
+private theorem step_keeps_some (m : Mux) (a : Act) (i : Nat) (h : (m.tab i).isSome = true) :
+    ((step m a).tab i).isSome = true := by
+  have hd : ((deliver m a).tab i).isSome = true := by
+    unfold deliver
+    cases hm : m.tab a.chan with
+    | none =>
+      simp only [die]
+      cases hi : m.tab i with
+      | none => simp [hi] at h
+      | some x => simp
+    | some ch =>
+      simp only []
+      split
+      · exact setTab_some m _ i _ h
+      · exact h
+  have hap : ((appCall m a).tab i).isSome = true := by
+    unfold appCall
+    cases hm : m.tab a.chan with
+    | none => exact h
+    | some ch => exact setTab_some m _ i _ h
+  have ho : ∀ c, ((openChan m c).tab i).isSome = true := by
+    intro c
+    unfold openChan
+    cases hm : m.tab c with
+    | none => exact setTab_some m _ i _ h
+    | some ch =>
+      simp only []
+      split
+      · exact h
+      · exact setTab_some m _ i _ h
+  cases a <;> simp only [step, Act.arrival, Bool.false_eq_true, if_false, if_true] <;>
+    first
+      | (split <;> first | exact hd | exact h)
+      | exact hap
+      | (split <;> first | exact ho _ | exact h)
+
+private theorem staysLinked_cons (c : Nat) (a : Act) (rest : List Act) :
+    staysLinked c (a :: rest) = (staysLinked c [a] && staysLinked c rest) := by
+  cases a <;> simp [staysLinked]
+
+private theorem step_on_linked (m : Mux) (a : Act) (ch : Chan) (h : m.tab a.chan = some ch) (hl : ch.linked = true)
+    (hal : m.alive = true) (hs : staysLinked a.chan [a] = true) :
+    (step m a).tab a.chan = some (chanStep ch a) ∧ (step m a).alive = true := by
+  have hd : deliver m a = setTab m a.chan (chanStep ch a) := by unfold deliver; simp [h, hl]
+  have hap : appCall m a = setTab m a.chan (chanStep ch a) := by unfold appCall; simp [h]
+  cases a <;> simp [staysLinked, Act.chan] at hs <;>
+    simp only [step, Act.arrival, Bool.false_eq_true, if_false, if_true, hal] <;>
+    first
+      | (rw [hd]; exact ⟨setTab_same _ _ _, hal⟩)
+      | (rw [hap]; exact ⟨setTab_same _ _ _, hal⟩)
+
+private theorem step_off_channel (m : Mux) (a : Act) (c : Nat) (ch : Chan) (h : m.tab c = some ch) (hne : c ≠ a.chan)
+    (hal : m.alive = true) (hka : a.arrival = true → (m.tab a.chan).isSome = true) :
+    (step m a).tab c = some ch ∧ (step m a).alive = true := by
+  have hd : a.arrival = true → ((deliver m a).tab c = some ch ∧ (deliver m a).alive = true) := by
+    intro ha
+    have hs := hka ha
+    unfold deliver
+    cases hm : m.tab a.chan with
+    | none => simp [hm] at hs
+    | some x =>
+      simp only []
+      split
+      · exact ⟨by rw [setTab_other m _ c _ hne]; exact h, hal⟩
+      · exact ⟨h, hal⟩
+  have hap : (appCall m a).tab c = some ch ∧ (appCall m a).alive = true := by
+    refine ⟨by rw [appCall_frame m a c hne]; exact h, ?_⟩
+    unfold appCall
+    cases hm : m.tab a.chan with
+    | none => exact hal
+    | some x => exact hal
+  have ho : ∀ i, c ≠ i → ((openChan m i).tab c = some ch ∧ (openChan m i).alive = true) := by
+    intro i hi
+    refine ⟨by rw [openChan_frame m i c hi]; exact h, ?_⟩
+    unfold openChan
+    cases hm : m.tab i with
+    | none => exact hal
+    | some x => simp only []; split <;> exact hal
+  cases a <;> simp only [Act.chan] at hne <;>
+    simp only [step, Act.arrival, Bool.false_eq_true, if_false, if_true, hal] <;>
+    first
+      | exact hd rfl
+      | exact hap
+      | exact ho _ hne
+
+/-- **Refinement to a map of per-channel machines**: while the run loop lives (the peer addresses only ids in use)
+and channel `c` stays registered, what any history does to `c` is what the sub-history addressed to `c` does to it
+alone — whatever happens on the other channels in between (data, closes, dead-channel traffic, re-opened ids). -/
+theorem run_proj (m : Mux) (acts : List Act) (c : Nat) (ch : Chan) (h : m.tab c = some ch) (hl : ch.linked = true)
+    (hal : m.alive = true) (hk : KnownIds m acts) (hs : staysLinked c acts = true) :
+    (run m acts).tab c = some (runChan ch (acts.filter (fun a => a.chan == c))) ∧ (run m acts).alive = true := by
+  induction acts generalizing m ch with
+  | nil => simpa [run, runChan] using ⟨h, hal⟩
+  | cons a rest ih =>
+    rw [staysLinked_cons] at hs
+    simp only [Bool.and_eq_true] at hs
+    have hk' : KnownIds (step m a) rest := by
+      intro x hx hax
+      exact step_keeps_some m a x.chan (hk x (by simp [hx]) hax)
+    simp only [run, List.foldl_cons] at ih ⊢
+    by_cases hc : a.chan = c
+    · have e : (a :: rest).filter (fun a => a.chan == c) = a :: rest.filter (fun a => a.chan == c) := by simp [hc]
+      rw [e]
+      subst hc
+      have hstep := step_on_linked m a ch h hl hal hs.1
+      have := ih (step m a) (chanStep ch a) hstep.1 (chanStep_linked ch a hl hs.1) hstep.2 hk' hs.2
+      simpa [runChan] using this
+    · have e : (a :: rest).filter (fun a => a.chan == c) = rest.filter (fun a => a.chan == c) := by simp [hc]
+      rw [e]
+      have hstep := step_off_channel m a c ch h (fun e => hc e.symm) hal (hk a (by simp))
+      exact ih (step m a) ch hstep.1 hl hstep.2 hk' hs.2
+
+/-! ### the association-list table the driver executes is the same transition system -/
+
+private theorem lookup_cons (l : List (Nat × Chan)) (c i : Nat) (x : Chan) :
+    lookup ((c, x) :: l) i = if i = c then some x else lookup l i := by
+  unfold lookup
+  by_cases h : i = c
+  · subst h; simp
+  · have : (c == i) = false := by simp; exact fun e => h e.symm
+    simp [List.find?_cons, this, h]
+
+private theorem lookup_map_kill (l : List (Nat × Chan)) (i : Nat) :
+    lookup (l.map (fun p : Nat × Chan => (p.1, kill p.2))) i = (lookup l i).map kill := by
+  unfold lookup
+  induction l with
+  | nil => rfl
+  | cons p rest ih =>
+    by_cases h : p.1 = i
+    · simp [List.find?_cons, h]
+    · have : (p.1 == i) = false := by simpa using h
+      simpa [List.find?_cons, this] using ih
+
+private theorem toMux_cons (l : List (Nat × Chan)) (al : Bool) (c : Nat) (x : Chan) :
+    ({ l := (c, x) :: l, alive := al } : Table).toMux = setTab ({ l := l, alive := al } : Table).toMux c x := by
+  simp only [Table.toMux, setTab, Mux.mk.injEq, and_true]
+  funext i
+  exact lookup_cons l c i x
+
+private theorem toMux_alive (t : Table) : t.toMux.alive = t.alive := rfl
+
+theorem table_refines (t : Table) (a : Act) : (stepL t a).toMux = step t.toMux a := by
+  obtain ⟨l, al⟩ := t
+  have hd : al = true → a.arrival = true →
+      (match lookup l a.chan with
+        | none => ({ l := l.map (fun p : Nat × Chan => (p.1, kill p.2)), alive := false } : Table)
+        | some ch => if ch.linked then { l := (a.chan, chanStep ch a) :: l, alive := al } else { l := l, alive := al }).toMux
+      = deliver ({ l := l, alive := al } : Table).toMux a := by
+    intro _ _
+    unfold deliver
+    simp only [Table.toMux]
+    cases hm : lookup l a.chan with
+    | none =>
+      simp only [die, Mux.mk.injEq, and_true]
+      funext i; exact lookup_map_kill l i
+    | some ch =>
+      simp only []
+      split
+      · exact toMux_cons l al _ _
+      · rfl
+  have hap : (match lookup l a.chan with
+        | none => ({ l := l, alive := al } : Table)
+        | some ch => { l := (a.chan, chanStep ch a) :: l, alive := al }).toMux
+      = appCall ({ l := l, alive := al } : Table).toMux a := by
+    unfold appCall
+    simp only [Table.toMux]
+    cases hm : lookup l a.chan with
+    | none => rfl
+    | some ch => exact toMux_cons l al _ _
+  have ho : ∀ c, (match lookup l c with
+        | some ch => if ch.linked then ({ l := l, alive := al } : Table) else { l := (c, {}) :: l, alive := al }
+        | none => { l := (c, {}) :: l, alive := al }).toMux
+      = openChan ({ l := l, alive := al } : Table).toMux c := by
+    intro c
+    unfold openChan
+    simp only [Table.toMux]
+    cases hm : lookup l c with
+    | none => exact toMux_cons l al _ _
+    | some ch =>
+      simp only []
+      split
+      · rfl
+      · exact toMux_cons l al _ _
+  cases al <;> cases a <;>
+    simp only [stepL, step, Act.arrival, toMux_alive, Bool.false_eq_true, if_false, if_true] <;>
+    first
+      | rfl
+      | exact hd rfl rfl
+      | exact hap
+      | exact ho _
 
 theorem table_fresh (k : Nat) : (freshL k).toMux = fresh k := by
+  simp only [freshL, fresh, Table.toMux, Mux.mk.injEq, and_true]
   funext c
-  unfold freshL fresh Table.toMux
-  by_cases h : c < k
-  · simp [h]
-  · simp [h]
+  induction k with
+  | zero => simp [freshList, lookup]
+  | succ n ih =>
+    rw [freshList, lookup_cons, ih]
+    by_cases h1 : c = n
+    · subst h1; simp
+    · by_cases h2 : c < n
+      · have : c < n + 1 := by omega
+        simp [h1, h2, this]
+      · have : ¬ c < n + 1 := by omega
+        simp [h1, h2, this]
 
 /-! ## per channel: streams without combining -/
 
@@ -99,12 +339,12 @@ private theorem plain_step (c : Nat) (ch : Chan) (a : Act) (ha : a.chan = c)
   | eof c' => simp [chanStep, sentOut, sentErr, hc, hp]
   | exitStatus c' v => simp [chanStep, sentOut, sentErr, hc, hp]
   | recv c' n =>
-    have := readBuf_conserve ch.out ch.eof n
+    have := readBuf_conserve ch.out (ch.eof || ch.closed) n
     simp only [chanStep, sentOut, sentErr, hc, hp, List.append_nil]
     refine ⟨?_, trivial, trivial, trivial⟩
     rw [List.append_assoc, this]
   | recvErr c' n =>
-    have := readBuf_conserve ch.err ch.eof n
+    have := readBuf_conserve ch.err (ch.eof || ch.closed) n
     simp only [chanStep, sentOut, sentErr, hc, hp, List.append_nil]
     refine ⟨trivial, ?_, trivial, trivial⟩
     rw [List.append_assoc, this]
@@ -117,6 +357,9 @@ private theorem plain_step (c : Nat) (ch : Chan) (a : Act) (ha : a.chan = c)
     simp only [Act.chan] at ha; subst ha
     simp [neverCombines] at hn
   | setCombineOldB c' => simp [chanStep, sentOut, sentErr, hc, hp]
+  | close c' => simp [chanStep, sentOut, sentErr, hc, hp]
+  | remoteClose c' => simp [chanStep, sentOut, sentErr, hc, hp]
+  | «open» c' => simp [chanStep, sentOut, sentErr, hc, hp]
 
 private theorem sentOut_cons (c : Nat) (a : Act) (rest : List Act) :
     sentOut c (a :: rest) = sentOut c [a] ++ sentOut c rest := by
@@ -178,7 +421,7 @@ private theorem combined_step (c : Nat) (ch : Chan) (a : Act) (ha : a.chan = c)
   | eof c' => simp [chanStep, sentBoth, hc, he, hp]
   | exitStatus c' v => simp [chanStep, sentBoth, hc, he, hp]
   | recv c' n =>
-    have := readBuf_conserve ch.out ch.eof n
+    have := readBuf_conserve ch.out (ch.eof || ch.closed) n
     simp only [chanStep, sentBoth, hc, he, hp, List.append_nil]
     refine ⟨?_, trivial, trivial, trivial, trivial⟩
     rw [List.append_assoc, this]
@@ -194,6 +437,9 @@ private theorem combined_step (c : Nat) (ch : Chan) (a : Act) (ha : a.chan = c)
     simp [chanStep, sentBoth, hc, he, hp]
   | setCombineOldA c' => simp [keepsCombining] at hk
   | setCombineOldB c' => simp [keepsCombining] at hk
+  | close c' => simp [chanStep, sentBoth, hc, he, hp]
+  | remoteClose c' => simp [chanStep, sentBoth, hc, he, hp]
+  | «open» c' => simp [chanStep, sentBoth, hc, he, hp]
 
 /-- **Combined stream.**  While combining stays on, the stdout stream (read ++ buffered) grows by exactly what the
 peer writes to *either* stream, in arrival order; nothing ever shows up on stderr. -/
@@ -289,28 +535,56 @@ private theorem neverCombines_filter (c : Nat) (acts : List Act) (h : neverCombi
     · have : (a :: rest).filter (fun a => a.chan == c) = rest.filter (fun a => a.chan == c) := by simp [hc]
       rw [this]; exact ih h.2
 
-/-- **C21, streams.**  `k` channels open on one transport; any history of messages for any of them (and for unknown
-ids), reads of any sizes and anything happening on the other channels: for every channel `c` that never switches
-combining on, stdout read ++ buffered = what the peer wrote to `c`'s stdout, and the same for stderr. -/
-theorem streams_intact (k : Nat) (acts : List Act) (c : Nat) (hc : c < k) (hn : neverCombines c acts = true) :
-    ∃ s, run (fresh k) acts c = some s ∧
+/-- **C21, streams.**  `k` channels open on one transport; any history of messages for them (data, EOF, exit status,
+CLOSE of *other* channels, traffic for channels that are already dead), reads of any sizes, local closes and anything
+else happening on the other channels: for every channel `c` that stays registered and never switches combining on,
+stdout read ++ buffered = what the peer wrote to `c`'s stdout, and the same for stderr. -/
+theorem streams_intact (k : Nat) (acts : List Act) (c : Nat) (hc : c < k)
+    (hk : KnownIds (fresh k) acts) (hs : staysLinked c acts = true) (hn : neverCombines c acts = true) :
+    ∃ s, (run (fresh k) acts).tab c = some s ∧
       s.outRead ++ s.out = sentOut c acts ∧ s.errRead ++ s.err = sentErr c acts := by
-  have h0 : fresh k c = some {} := by simp [fresh, hc]
-  refine ⟨_, run_proj (fresh k) acts c {} h0, ?_⟩
+  have h0 : (fresh k).tab c = some {} := by simp [fresh, hc]
+  refine ⟨_, (run_proj (fresh k) acts c {} h0 rfl rfl hk hs).1, ?_⟩
   have := plain_streams c (acts.filter (fun a => a.chan == c)) {} (filter_all c acts)
     (neverCombines_filter c acts hn) rfl rfl
   simp only [sentOut_filter, sentErr_filter] at this
   simpa using this
+
+/-- **After the peer's CLOSE** (the channel is unlinked) nothing the peer still sends under that id reaches the old
+channel object: whatever was buffered stays readable, nothing is added — and a channel later opened under the same id
+starts empty (`reopened_channel_starts_empty`). -/
+theorem late_data_is_dropped (m : Mux) (c : Nat) (ch : Chan) (late : List Act) (h : m.tab c = some ch)
+    (hl : ch.linked = false) (hlate : ∀ a ∈ late, a.arrival = true ∧ a.chan = c) : run m late = m := by
+  induction late generalizing m with
+  | nil => rfl
+  | cons a rest ih =>
+    have ha := hlate a (by simp)
+    have hstep : step m a = m := dead_channel_drops m a ch ha.1 (by rw [ha.2]; exact h) hl
+    simp only [run, List.foldl_cons, hstep]
+    exact ih m h (fun x hx => hlate x (by simp [hx]))
 
 /-! ## non-vacuity and the race that was fixed -/
 
 -- three channels, interleaved traffic, chunked reads; channel 1 combines from the start
 example :
     let m := run (fresh 3) [.setCombine 1 true, .data 0 [1, 2], .ext 1 1 [9], .data 1 [7], .ext 0 1 [5], .data 2 [3],
-      .recv 0 1, .ext 1 1 [8], .exitStatus 2 3, .recv 1 10, .recvErr 0 4, .data 7 [1]]
-    (m 0).map (fun s => (s.outRead, s.out, s.errRead)) = some ([1], [2], [5]) ∧
-    (m 1).map (fun s => (s.outRead, s.err)) = some ([9, 7, 8], []) ∧
-    (m 2).map (fun s => s.exit) = some (some 3) ∧ m 7 = none := by decide
+      .recv 0 1, .ext 1 1 [8], .exitStatus 2 3, .recv 1 10, .recvErr 0 4]
+    (m.tab 0).map (fun s => (s.outRead, s.out, s.errRead)) = some ([1], [2], [5]) ∧
+    (m.tab 1).map (fun s => (s.outRead, s.err)) = some ([9, 7, 8], []) ∧
+    (m.tab 2).map (fun s => s.exit) = some (some 3) ∧ m.alive = true := by decide
+
+-- local close, late data, the peer's CLOSE, dead-channel traffic, a re-opened id, and an unknown id ending the run loop
+example :
+    let m := run (fresh 2) [.data 0 [1], .close 0, .data 0 [2], .remoteClose 0, .data 0 [3], .data 1 [9], .open 0,
+      .data 0 [4], .recv 0 9, .data 5 [0], .data 1 [8], .recv 1 9, .recv 1 9]
+    (m.tab 0).map (fun s => (s.outRead, s.out)) = some ([4], []) ∧
+    (m.tab 1).map (fun s => (s.outRead, s.out, s.closed, s.last)) = some ([9], [], true, some (.data [])) ∧
+    m.alive = false := by decide
+
+-- data that arrives between the local close() and the peer's CLOSE still lands in that channel (and is readable)
+example :
+    ((run (fresh 1) [.data 0 [1], .close 0, .data 0 [2], .remoteClose 0, .data 0 [3], .recv 0 9]).tab 0).map
+      (fun s => (s.outRead, s.linked)) = some ([1, 2], false) := by decide
 
 /-- the old `set_combine_stderr(True)`: it emptied stderr (`A`) under the lock, a stderr message `B` arrived, and only
 then `A` was fed into stdout: the application reads `B A`. -/
